@@ -88,6 +88,7 @@ func (p *Program) VerifyFunc(c *Contract) (res *FuncResult) {
 	ex := &Exec{P: p, Mode: modeOf(c), Fn: fn, C: c, Funs: map[string]string{}, MaxStep: 400000,
 		siteCnt: map[string]int{}, Inlined: map[string]bool{}, UsedContracts: map[string]bool{}, UsedAssumed: map[string]bool{}}
 	res.Exec = ex
+	CurDefs = map[string]*Term{}
 	if c.Options["nlmul"] == "uf" {
 		NLMulUF = true
 		NLMulComm = nil
